@@ -44,7 +44,11 @@ def run_mutants(prop, only=None):
             ok = r.returncode == 1 and any(e in fired for e in expect)
             out["mutants"].append({"mutant": name, "expected_rule": expect, "fired": sorted(fired), "detected": ok})
             if not ok:
-                out["broken"].append(f"mutant {prop}/{name} (expects {expect}) was not detected; fired={sorted(fired)} exit={r.returncode}")
+                tail = ""
+                if "VIOLATION" not in r.stdout and r.returncode != 0:
+                    # the check itself fell over on the variant (not a verdict): say why
+                    tail = " check-error: " + " | ".join((r.stderr or r.stdout).strip().splitlines()[-3:])[:400]
+                out["broken"].append(f"mutant {prop}/{name} (expects {expect}) was not detected; fired={sorted(fired)} exit={r.returncode}{tail}")
         finally:
             subprocess.call(["git", "-C", REPO, "worktree", "remove", "--force", w], stdout=subprocess.DEVNULL, stderr=subprocess.DEVNULL)
             shutil.rmtree(w, ignore_errors=True)
